@@ -22,7 +22,7 @@ func init() {
 	run.Register(&run.Property{
 		ID:    "C13",
 		Title: "ConvexHull is the minimal convex cover; rotated bounding rectangles enclose it",
-		Rule: "cases = (a) point multisets of size 1..200 on small/large integer lattices with many duplicates and collinear runs (all-collinear, duplicate extremes, collinear boundary points), under all permutations for n<=5 and sampled permutations/duplications beyond; (b) valid geometries of every type (lattice and general-position floats). " +
+		Rule: "[added in rounds 9-11: chain:<n>: hulls with nearly all vertices on one monotone chain; invariance under independent Z/M] cases = (a) point multisets of size 1..200 on small/large integer lattices with many duplicates and collinear runs (all-collinear, duplicate extremes, collinear boundary points), under all permutations for n<=5 and sampled permutations/duplications beyond; (b) valid geometries of every type (lattice and general-position floats). " +
 			"Hull judged by exact orientation tests; rectangles against the exact minimum over all hull-edge-aligned rectangles. non-trivial = hull is a Polygon; distinct by the sorted control point multiset",
 		Assumptions:      []string{"lattice inputs: every orientation and extent is exact (big.Rat); general-position inputs are judged on the covering claims only, within 1e-9*M"},
 		MinNontrivial:    300,
